@@ -404,4 +404,17 @@ def shape_findings(prog: Program, ma: MonthAnalysis):
                 for t in (n_.targets if isinstance(n_, ast.Assign) else [n_.target]):
                     if attr_chain(t) in ("self.load", "self.hour"):
                         out.append((f"{f_.qualname}:{norm_stmt(n_)}", prog.loc(f_, n_), f_.qualname, "self.load / self.hour is written outside process_month_loads"))
+    # the month loop runs over exactly the requested months: range(start_month, end_month + 1), however the bounds are written
+    it = ma.loop.iter
+    ok_iter = False
+    if isinstance(it, ast.Call) and attr_chain(it.func) == "range" and len(it.args) == 2:
+        from ..model import inline_single_defs
+
+        eng = Engine(prog, fi, Hooks())
+        lo = eng.eval(inline_single_defs(fi.node, it.args[0]), State())
+        hi = eng.eval(inline_single_defs(fi.node, it.args[1]), State())
+        ok_iter = isinstance(lo, Rat) and isinstance(hi, Rat) and lo.equals(Rat.atom("self.start_month")) and hi.equals(Rat.atom("self.end_month") + Rat.const(1))
+    if not ok_iter:
+        out.append(("loop-range:" + ast.unparse(it), prog.loc(fi, ma.loop), fi.qualname,
+                    f"the month loop does not cover exactly the requested months start_month..end_month: {ast.unparse(it)} - the sequence ends before or after the requested horizon"))
     return out
